@@ -764,6 +764,8 @@ def install(world):
     io.open = fs.open
     shutil.rmtree = fs.rmtree
     tempfile.mkdtemp = fs.mkdtemp
+    tempfile.tempdir = SIM_ROOT + '/tmp'          # tempfile.gettempdir() answers with the simulated temp directory
+    fs.dirs.add(SIM_ROOT + '/tmp')
 
     # environment
     os.environ.clear()
